@@ -701,3 +701,50 @@ Print Assumptions C03_vol_create_dir_failed_gives_back.
 Print Assumptions C03_vol_create_dir_full_root_example.
 Print Assumptions C03_vol_create_dir_early_failures_example.
 Print Assumptions C03_vol_create_dir_keeps_wf_partial.
+(* ================================================================ THE FAT32 ROOT DIRECTORY on whole images: well-formedness
+   (Proofs/Vol32RootFormat.v; premises as in Props/C01.v C01_vol32_root_create_decodes) *)
+From FatVerif Require Import Model.VolChainDir Model.Vol32Root Proofs.VolDirProofs Proofs.VolChainDirProofs
+  Proofs.Vol32RootProofs Proofs.Vol32RootFormat Proofs.Vol32RootExamples.
+From FatVerif Require Import Model.Format Spec.FormatSpec Model.FormatImage Spec.FormatImageSpec.
+(* a successful create in the root of a well-formed FAT32 volume leaves it well formed (no issue of Spec/Wf.v) *)
+Theorem C03_vol32_root_create_keeps_wf : forall fold upper oem im l es ls name now range im',
+  root32_ok im l es ls -> Forall (avoids l) (v_root (abs im)) ->
+  Wf.wf_issues fold im = [] -> TimeProofs.datetime_valid now = true ->
+  vol32_root_create upper oem im name now = Some (Ok (Some range), im') ->
+  (is_dot_name name = false ->
+   ~ In (fold (utf16_encode name)) (map fold (filter has_lfn (map e_lfn (map node_entry (v_root (abs im))))))) ->
+  Wf.wf_issues fold im' = [].
+Proof. exact vol32_root_create_keeps_wf. Qed.
+
+Theorem C03_vol32_root_create_many_keeps_wf : forall fold upper oem,
+  forall reqs im im' l es ls,
+  root32_ok im l es ls -> Forall (avoids l) (v_root (abs im)) -> Wf.wf_issues fold im = [] ->
+  Forall (fun q => TimeProofs.datetime_valid (snd q) = true) reqs ->
+  Forall (fun q => is_dot_name (fst q) = false) reqs ->
+  NoDup (map (fun q => fold (utf16_encode (fst q))) reqs) ->
+  (forall q, In q reqs -> ~ In (fold (utf16_encode (fst q))) (root_lfns_folded fold im)) ->
+  vol32_root_create_many upper oem im reqs = Some im' -> Wf.wf_issues fold im' = [].
+Proof. exact vol32_root_create_many_keeps_wf. Qed.
+
+(* format_volume (FAT32) on any device content, then creates of pairwise distinct (folded) non-dot names: wf_issues = [] *)
+Theorem C03_vol32_format_create_many_wf : forall fold upper oem o ts im0 bs im reqs im',
+  builder_range o -> ts < 4294967296 -> FatProofs.bytes_ok im0 ->
+  format_boot_sector_validated o ts = Ok (bs, Format.Fat32) ->
+  format_image o ts im0 = Ok im ->
+  Forall (fun q => TimeProofs.datetime_valid (snd q) = true) reqs ->
+  Forall (fun q => is_dot_name (fst q) = false) reqs ->
+  NoDup (map (fun q => fold (utf16_encode (fst q))) reqs) ->
+  vol32_root_create_many upper oem im reqs = Some im' -> Wf.wf_issues fold im' = [].
+Proof. exact format32_create_many_wf. Qed.
+
+Example C03_vol32_example :
+  Wf.wf_issues (fun l => l) ex32r_im1 = [] /\ Wf.wf_issues (fun l => l) ex32r_im2 = [] /\ Wf.wf_issues (fun l => l) ex32r_im3 = [] /\
+  Wf.wf_issues (fun l => l) ex32r_im4 = [] /\ Wf.wf_issues (fun l => l) ex32r_full = [] /\ length (v_root (abs ex32r_full)) = 5%nat.
+Proof.
+  split; [exact (proj2 ex32r_view1)|]. split; [exact (proj2 ex32r_view2)|]. split; [exact (proj2 ex32r_view3)|].
+  split; [exact (proj1 (proj2 ex32r_view4))|]. split; [exact (proj2 ex32r_full_many)|exact (proj1 ex32r_full_many)].
+Qed.
+
+Print Assumptions C03_vol32_root_create_keeps_wf.
+Print Assumptions C03_vol32_root_create_many_keeps_wf.
+Print Assumptions C03_vol32_format_create_many_wf.
